@@ -217,7 +217,7 @@ func (c09PingPong) Books(pool types.ConnectionPool) c09.Books {
 }
 
 func TestVerifC09PingPong(t *testing.T) {
-	c09.Main(t, c09PingPong{}, 4, 6)
+	c09.Main(t, c09PingPong{}, 7, 10)
 }
 
 // ---------------------------------------------------------------------------
@@ -338,5 +338,5 @@ func (d c09Multiplex) Prepare(pool types.ConnectionPool, ctx context.Context) (b
 }
 
 func TestVerifC09Multiplex(t *testing.T) {
-	c09.Main(t, c09Multiplex{}, 4, 6)
+	c09.Main(t, c09Multiplex{}, 7, 11)
 }
